@@ -82,7 +82,18 @@ type TrackedListener struct {
 	last   atomic.Pointer[ConnRec]
 	unix   bool
 	closed atomic.Bool
+	// CloseErr, if set, is what Accept reports once the listener has been closed, in place of
+	// the standard library's error: multiplexers (cmux: "mux: listener closed"), in-memory
+	// listeners (bufconn: "closed") and wrappers signal closure with their own sentinel,
+	// which does not wrap net.ErrClosed
+	CloseErr error
+	// AcceptsAfterClose counts Accept calls made on the closed listener (a caller that keeps
+	// accepting after closure is looping); beyond parkAfter such calls block so that a
+	// looping caller does not burn a core for the rest of the run
+	AcceptsAfterClose atomic.Int64
 }
+
+const parkAfter = 5000
 
 // NewTrackedListener wraps ln
 func NewTrackedListener(ln net.Listener, unix bool) *TrackedListener {
@@ -100,6 +111,14 @@ func (t *TrackedListener) bump() {
 func (t *TrackedListener) Accept() (net.Conn, error) {
 	c, err := t.Listener.Accept()
 	if err != nil {
+		if t.closed.Load() {
+			if t.AcceptsAfterClose.Add(1) > parkAfter {
+				select {}
+			}
+			if t.CloseErr != nil {
+				return nil, t.CloseErr
+			}
+		}
 		return nil, err
 	}
 	t.mu.Lock()
@@ -143,6 +162,8 @@ type LWCfg struct {
 	GenFn      protocol.GenerateServerCertificatesFn
 	Acceptors  int  // default 1
 	NoAccept   bool // do not start acceptors (caller drives Accept)
+	// BaseCloseErr: the base listener reports closure with this error instead of net.ErrClosed
+	BaseCloseErr error
 }
 
 // PanicRec is a recovered panic out of Accept
@@ -154,11 +175,13 @@ type PanicRec struct {
 
 // LW is an intercepting listener on a tracked base listener plus acceptors
 type LW struct {
-	S     *Server
-	TL    *TrackedListener
-	IL    *protocol.InterceptingListener
-	Addr  string
-	multi bool
+	S  *Server
+	TL *TrackedListener
+	IL *protocol.InterceptingListener
+	// TempAfterClose: an Accept error marked temporary although the base listener was already closed
+	TempAfterClose error
+	Addr           string
+	multi          bool
 
 	mu     sync.Mutex
 	Panics []PanicRec
@@ -195,6 +218,7 @@ func NewLW(s *Server, cfg LWCfg) (*LW, error) {
 		return nil, err
 	}
 	lw.TL = NewTrackedListener(base, cfg.Unix)
+	lw.TL.CloseErr = cfg.BaseCloseErr
 	opts := cfg.Options
 	if opts == nil && !cfg.OptionsSet {
 		opts = s.Opts()
@@ -273,6 +297,15 @@ func (lw *LW) acceptLoop() {
 				if lw.Fatal == nil {
 					lw.Fatal = err
 				}
+				lw.mu.Unlock()
+				tl.bump()
+				return
+			}
+			if tl.closed.Load() {
+				// the base listener is closed and Accept still calls the failure temporary: an
+				// accept loop that trusts the marking would spin forever; this one records it and stops
+				lw.mu.Lock()
+				lw.TempAfterClose = err
 				lw.mu.Unlock()
 				tl.bump()
 				return
